@@ -18,6 +18,7 @@ type intrinsicState struct {
 	clock       func(i *interpreter) value
 	clockReads  int
 	clockBase   int64
+	timers      []*modelTimer
 	faults      map[string]int
 	faultsOn    bool
 	faultBudget int
@@ -226,6 +227,7 @@ func addIntrinsics(P *Program) {
 	})
 	reg("AdvanceClock", func(i *interpreter, fr *frame, fn *ssa.Function, args []value) value {
 		i.clockBase += asInt64(args[0])
+		i.fireTimers()
 		return nil
 	})
 	reg("Settle", func(i *interpreter, fr *frame, fn *ssa.Function, args []value) value { return nil })
